@@ -616,7 +616,9 @@ func FuzzC11(f *testing.F) {
 	f.Fuzz(func(t *testing.T, vs, ops byte, body []byte) {
 		v := protogen.Versions[int(vs)%len(protogen.Versions)]
 		op := []primitive.OpCode{primitive.OpCodeQuery, primitive.OpCodeExecute, primitive.OpCodeBatch}[int(ops)%3]
-		if f := c11CheckInner(c11Case{Mode: "fuzz", Version: int(v), Op: int(op), Body: hex.EncodeToString(body)}); f != nil {
+		c := c11Case{Mode: "fuzz", Version: int(v), Op: int(op), Body: hex.EncodeToString(body)}
+		if f := safely(c11CheckInner, c); f != nil {
+			fuzzFail("C11", "bytes", c, f)
 			t.Fatalf("%v", f)
 		}
 	})
